@@ -2,6 +2,10 @@ import TbbVerif.Core.Proto
 import TbbVerif.Model.C08
 import TbbVerif.Model.C08Q
 import TbbVerif.Model.C08S
+import TbbVerif.Model.C08N
+import TbbVerif.Model.C08R
+import TbbVerif.Model.C08NInv
+import TbbVerif.Model.C08NX
 
 open TbbVerif
 
@@ -10,6 +14,9 @@ def drivers : List (String × Proto.Driver) := [
   ("c08spin", C08.driverSpin),
   ("c08mcs", C08.Mcs.driver),
   ("c08qrw", C08.QRw.driver),
+  ("c08qrwn", C08.QRwN.Explore.driverInv),
+  ("c08rtm", C08.Rtm.driver),
+  ("c08qrwx", C08.QRwN.Explore.driver),
   ("c08mx", C08.Slp.driverMx),
   ("c08rwm", C08.Slp.driverRw)
 ]
